@@ -528,7 +528,12 @@ class Gen:
                                    self.rand_dtype("ifc"), "unit")
             sub = ""
             for l in self.shape(x):
-                cands = [c for c in lens if lens[c] == l or l == 1 or lens[c] == 1]
+                # unit-axis broadcasting only ACROSS operands (NumPy's rule); a letter
+                # repeated inside one operand needs identical lengths
+                axlen = dict(zip(sub, self.shape(x)))
+                cands = [c for c in lens
+                         if (lens[c] == l or l == 1 or lens[c] == 1)
+                         and (c not in sub or axlen[c] == l)]
                 if cands and self.rng.random() < 0.6:
                     c = self.rng.choice(cands)
                     if lens[c] == 1:
